@@ -29,10 +29,7 @@ def get_matrix_numerical_range(matA, num_point=100):
     for theta_i in theta_list:
         tmp0 = np.exp(1j*theta_i)/2
         tmp1 = tmp0 * matA + tmp0.conj() * matA_conj
-        if N0>=5:
-            EVC = scipy.sparse.linalg.eigsh(tmp1, k=1, which='LA', return_eigenvectors=True)[1][:,0]
-        else:
-            EVC = scipy.linalg.eigh(tmp1)[1][:,-1]
+        EVC = scipy.linalg.eigh(tmp1, subset_by_index=[N0-1,N0-1])[1][:,0] #tmp1 is dense, ARPACK fails if tmp1=0
         ret.append(np.vdot(EVC, matA @ EVC))
     ret = np.array(ret)
     return ret
